@@ -293,6 +293,15 @@ func visitInstr(fr *frame, instr ssa.Instruction) continuation {
 
 	case *ssa.IndexAddr:
 		x := fr.get(instr.X)
+		if rb, ok := x.(ropeBytes); ok {
+			// indexing into bytes that are still a rope: materialise them (forks over the finite domains of the atoms)
+			s := fr.i.ex.concStr(strOf(rb.s))
+			bs := make([]value, len(s))
+			for k := 0; k < len(s); k++ {
+				bs[k] = s[k]
+			}
+			x = bs
+		}
 		idx := fr.i.ex.concIdx(fr.get(instr.Index))
 		switch x := x.(type) {
 		case []value:
